@@ -67,8 +67,8 @@ def _is_property(fn):
                for d in fn.node.decorator_list)
 
 
-def r13_1(ck):
-    ck.rule('R13.1', 'proxy table: each public member of Process is either '
+def r13_1(ck, only=None, rule='R13.1'):
+    ck.rule(rule, 'proxy table: each public member of Process is either '
             'a frozen exception or overridden in ParallelProcess by a '
             'run_command forwarder (command = member name, in the command '
             'tables, parameters in signature order)')
@@ -77,7 +77,7 @@ def r13_1(ck):
     meths = _tuple_consts(P.assigns.get('METHOD_COMMANDS'))
     reads = _tuple_consts(P.assigns.get('ATTRIBUTE_READ_COMMANDS'))
     writes = _tuple_consts(P.assigns.get('ATTRIBUTE_WRITE_COMMANDS'))
-    ck.require(bool(meths) and bool(reads) and bool(writes), 'R13.1',
+    ck.require(bool(meths) and bool(reads) and bool(writes), rule,
                P.methods['send_command'], 'command tables',
                'Process declares METHOD/ATTRIBUTE_READ/ATTRIBUTE_WRITE '
                'command tables', 'command tables not found')
@@ -90,9 +90,11 @@ def r13_1(ck):
         setter = key.endswith('.setter')
         if name in PROXY_EXCEPTIONS:
             continue
+        if only is not None and name not in only:
+            continue
         ov = PP.methods.get(key)
         if ov is None:
-            ck.fail('R13.1', fn, 'Process.%s' % key,
+            ck.fail(rule, fn, 'Process.%s' % key,
                     'public member Process.%s is not proxied by '
                     'ParallelProcess (and is not a listed exception): the '
                     'wrapper would answer from its own empty state instead '
@@ -104,22 +106,30 @@ def r13_1(ck):
         calls = [c for c in A.calls_in(ov.node, 'run_command')
                  if A.is_name(A.call_receiver(c), 'self')]
         if len(calls) != 1:
-            ck.fail('R13.1', ov, ov.node.name,
+            ck.fail(rule, ov, ov.node.name,
                     'the override of %s does not forward through exactly '
                     'one self.run_command(...)' % key, ov.node)
             continue
         c = calls[0]
+        cfo = cfg_of(ov.node)
+        ck.require(cfo.postdominates(cfo.node(c), cfo.entry), rule, ov, c,
+                   'the proxy forwards on every path (it never answers '
+                   'from its own state)',
+                   'the proxy of %s can return without asking the child '
+                   'process: the wrapper answers from its own (empty) '
+                   'state, so an overridden %s of the wrapped process is '
+                   'ignored' % (key, name), c)
         cmd = A.arg_of(c, 0, 'command')
         want = ('set_' + name) if setter else name
         ok = isinstance(cmd, ast.Constant) and cmd.value == want
-        ck.require(ok, 'R13.1', ov, c,
+        ck.require(ok, rule, ov, c,
                    "the command string equals the member name ('%s')" % want,
                    "the proxy of %s sends command %s" % (
                        key, A.unparse(cmd)), c)
         if isinstance(cmd, ast.Constant):
             tbl = writes if setter else (reads if _is_property(fn)
                                          else meths)
-            ck.require(cmd.value in tbl, 'R13.1', ov, c,
+            ck.require(cmd.value in tbl, rule, ov, c,
                        'the command is listed in the matching command table',
                        "command '%s' is not in the %s table: the child "
                        'would reject it' % (cmd.value, 'write' if setter
@@ -132,7 +142,7 @@ def r13_1(ck):
             ok = isinstance(args, ast.Tuple) and [
                 A.unparse(e) for e in args.elts] == oparams and \
                 len(oparams) == len(params)
-            ck.require(ok, 'R13.1', ov, c,
+            ck.require(ok, rule, ov, c,
                        'the argument tuple lists the parameters in '
                        'signature order %s' % (tuple(params),),
                        'the proxy of %s sends %s for the signature %s: '
@@ -140,7 +150,7 @@ def r13_1(ck):
                        % (key, A.unparse(args), tuple(params)), c)
         else:
             ck.require(args is None or (isinstance(args, ast.Tuple) and
-                                        not args.elts), 'R13.1', ov, c,
+                                        not args.elts), rule, ov, c,
                        'no arguments for a parameterless member', None, c)
         if not setter:
             rets = [r for r in A.walk_no_nested(ov.node)
@@ -148,17 +158,19 @@ def r13_1(ck):
             ok = any(r.value is c or (r.value is not None and A.contains(
                 r.value, c)) for r in rets) or name in (
                     'merge_overrides',)
-            ck.require(ok, 'R13.1', ov, c,
+            ck.require(ok, rule, ov, c,
                        'the proxy returns what the child answered', None, c)
-    ck.floor('R13.1', n, 17, 'proxied members')
+    ck.floor(rule, n, 17 if only is None else len(only), 'proxied members')
+    if only is not None:
+        return proxied
     # every command in the tables has a member on Process
     for cmd in meths:
-        ck.require(cmd in P.methods, 'R13.1', P.methods['send_command'],
+        ck.require(cmd in P.methods, rule, P.methods['send_command'],
                    "method command '%s'" % cmd,
                    'every method command names a Process method', None)
     for cmd in reads:
         ck.require(cmd in P.methods and _is_property(P.methods[cmd]),
-                   'R13.1', P.methods['send_command'],
+                   rule, P.methods['send_command'],
                    "read command '%s'" % cmd,
                    'every read command names a Process property', None)
     return proxied
